@@ -125,7 +125,7 @@ def case_term(script, result):
         '; '.join(effect_term(e) for e in result['trace'] if e[0] not in MARKERS))
 
 
-MARKERS = ('pass', 'req', 'endacts')      # harness-only trace entries (pass boundaries, RPC issue points)
+MARKERS = ('pass', 'req', 'endacts', 'polled')      # harness-only trace entries (pass boundaries, RPC issue points)
 PREAMBLE = 'Open Scope Z_scope.'
 IMPORTS = ['SV.Life.Model', 'SV.Life.Corr']
 
